@@ -13,6 +13,7 @@
 import Gzx.Gen.K19
 import Gzx.KernelGuard
 import Gzx.Proofs.K19
+import Gzx.Proofs.GridSampler
 namespace Gzx.Obligations.K19
 open Gzx Gzx.GoM Gzx.K19
 
@@ -128,5 +129,89 @@ theorem k_checkAndNudge_eq (ops : NumOps F) (fuel : Nat) (w h : Int) (pts : List
       obtain ⟨b2, off2, e2⟩ := f2.1 r hq
       show _ = _
       rw [e2]; rfl
+
+/-- the integers as a number type (`int(x) = x`, `float64(i) = i`): instantiates the hypotheses below, and lets the
+    kernel EVALUATE the regenerated definition -/
+def intOps : NumOps Int :=
+  { add := (· + ·), sub := (· - ·), mul := (· * ·), div := Int.tdiv, neg := fun a => -a, ofInt := id, toInt := id,
+    eq := fun a b => decide (a = b), lt := fun a b => decide (a < b), le := fun a b => decide (a ≤ b) }
+
+when_kernel Gzx.Gen.K19.checkAndNudge in
+/-- **Regenerated source = hand-written model, over exact rationals.**  On the interleaved slice of the points `ps`
+    the regenerated `GridSampler_checkAndNudgePoints` returns `nil` and the slice of `GridSampler.checkAndNudge w h ps`,
+    or an error exactly when the model answers NotFound (the model has no other failure).  Every C19 theorem about
+    `checkAndNudge` (both passes clamp alike on all four edges, beyond ⇒ NotFound, within ⇒ accepted, inside ⇒
+    unchanged) is thereby a theorem about the text of grid_sampler.go as it is in /repo now. -/
+theorem k_checkAndNudge_model (fuel : Nat) (w h : Int) (ps : List GridSampler.Pt)
+    (hf : 2 * ps.length < fuel) :
+    match GridSampler.checkAndNudge w h ps with
+    | .ok ps' => Gen.K19.checkAndNudge ratOps fuel w h (GridSampler.fromPairs ps) = .ok (false, GridSampler.fromPairs ps')
+    | .error e => e = .notFound ∧ ∃ out, Gen.K19.checkAndNudge ratOps fuel w h (GridSampler.fromPairs ps) = .ok (true, out) := by
+  have hlen : ∀ l : List GridSampler.Pt, (GridSampler.fromPairs l).length = 2 * l.length := by
+    intro l; induction l with
+    | nil => rfl
+    | cons a l ih => simp only [GridSampler.fromPairs, List.length_cons, ih]; omega
+  have hk := k_checkAndNudge_eq ratOps fuel w h (GridSampler.fromPairs ps) (by rw [hlen]; exact hf)
+  rw [nudgeSpec_rat_even] at hk
+  cases hm : GridSampler.checkAndNudge w h ps with
+  | ok ps' => rw [hm] at hk; exact hk
+  | error e => rw [hm] at hk; exact ⟨GridSampler.checkAndNudge_error hm, hk⟩
+
+example : GridSampler.checkAndNudge 10 10 [(5, 10), (5, 5)] = .ok [(5, 9), (5, 5)] := by decide
+
+when_kernel Gzx.Gen.K19.checkAndNudge in
+/-- **Through the truncation, for ANY number type** (Lean `Float` = Go's float64 in particular; it occurs only through
+    the abstract `toInt` / `ofInt`): if `int(float64(k)) = k` for the three values the function writes (`0`, `width-1`,
+    `height-1` — true of float64 for |k| < 2^53), then on every slice whose pixel indices `int(points[i])` are those of
+    the rational points `ps`, the regenerated function fails exactly when the model answers NotFound, and otherwise
+    leaves a slice whose pixel indices are those of the model's result. -/
+theorem k_checkAndNudge_through_trunc (ops : NumOps F) (fuel : Nat) (w h : Int)
+    (h0 : ops.toInt (ops.ofInt 0) = 0) (hw : ops.toInt (ops.ofInt (w - 1)) = w - 1) (hh : ops.toInt (ops.ofInt (h - 1)) = h - 1)
+    (pts : List F) (ps : List GridSampler.Pt)
+    (hpts : pts.map ops.toInt = (GridSampler.fromPairs ps).map GridSampler.trunc) (hf : pts.length < fuel) :
+    match GridSampler.checkAndNudge w h ps with
+    | .ok ps' => ∃ out, Gen.K19.checkAndNudge ops fuel w h pts = .ok (false, out) ∧
+        out.map ops.toInt = (GridSampler.fromPairs ps').map GridSampler.trunc
+    | .error _ => ∃ out, Gen.K19.checkAndNudge ops fuel w h pts = .ok (true, out) := by
+  have H : WritesAgree ops ratOps w h :=
+    ⟨by rw [h0]; exact (GridSampler.trunc_intCast 0).symm, by rw [hw]; exact (GridSampler.trunc_intCast _).symm,
+     by rw [hh]; exact (GridSampler.trunc_intCast _).symm⟩
+  have hs := nudgeSpec_sim ops ratOps w h H pts (GridSampler.fromPairs ps) hpts
+  rw [nudgeSpec_rat_even] at hs
+  have hk := k_checkAndNudge_eq ops fuel w h pts hf
+  cases hm : GridSampler.checkAndNudge w h ps with
+  | ok ps' =>
+    rw [hm] at hs
+    cases hn : nudgeSpec ops w h pts with
+    | none => rw [hn] at hs; simp [optOf] at hs
+    | some r =>
+      rw [hn] at hs hk
+      refine ⟨r, hk, ?_⟩
+      have e : List.map ops.toInt r = List.map ratOps.toInt (GridSampler.fromPairs ps') := by simpa [optOf] using hs
+      exact e
+  | error e =>
+    rw [hm] at hs
+    cases hn : nudgeSpec ops w h pts with
+    | none => rw [hn] at hk; exact hk
+    | some r => rw [hn] at hs; simp [optOf] at hs
+
+/-- non-vacuity of the hypotheses of `k_checkAndNudge_through_trunc` -/
+example : intOps.toInt (intOps.ofInt 0) = 0 ∧ intOps.toInt (intOps.ofInt (10 - 1)) = 10 - 1 := ⟨rfl, rfl⟩
+
+when_kernel Gzx.Gen.K19.checkAndNudge in
+/-- the regenerated definition evaluated by the kernel: the repository's own unit-test row (all four edges, both ends) … -/
+example : Gen.K19.checkAndNudge intOps 20 10 10 [-1, -1, 10, 10, 0, 0, -1, -1, 10, 10]
+    = .ok (false, [0, 0, 9, 9, 0, 0, 0, 0, 9, 9]) := by decide
+
+when_kernel Gzx.Gen.K19.checkAndNudge in
+/-- … D8 (first loop, `y == height`) as repaired, a NotFound, an odd-length slice (element 0 is never visited by the
+    second loop) and the empty slice -/
+example : Gen.K19.checkAndNudge intOps 20 10 10 [5, 10, 5, 5] = .ok (false, [5, 9, 5, 5]) := by decide
+when_kernel Gzx.Gen.K19.checkAndNudge in
+example : (Gen.K19.checkAndNudge intOps 20 10 10 [5, 5, 11, 0]).map (·.1) = .ok true := by decide
+when_kernel Gzx.Gen.K19.checkAndNudge in
+example : Gen.K19.checkAndNudge intOps 20 10 10 [-1, 5, 10] = .ok (false, [0, 5, 9]) := by decide
+when_kernel Gzx.Gen.K19.checkAndNudge in
+example : Gen.K19.checkAndNudge intOps 1 10 10 [] = .ok (false, []) := by decide
 
 end Gzx.Obligations.K19
